@@ -28,5 +28,7 @@ def run(ctx):
     failures += progflow.judge(ctx, progflow.scale_cases(ctx, "C01"), "scale")
     # every ordered pair of feature snippets x every composition mode (spec/FamPairs.tla): the pairs whose highest property is this one
     failures += progflow.judge(ctx, progflow.pair_cases(ctx, "C01"), "pairs")
+    # every control skeleton up to a size (spec/FamSkel.tla): all nestings and sequencings of 8 constructs, one jump site at most
+    failures += progflow.judge(ctx, progflow.skel_cases(ctx), "skel")
     progflow.report(ctx, failures)
     return ctx.finish(rule=RULE, assumptions=ASSUME)
